@@ -500,4 +500,138 @@ def answerOf (p : St α × Out α) : Answer α :=
 /-- the one mutator the theorems use to probe aliasing: `shape.centroid = value` by the caller -/
 def callerSetsCentroid (M : Meas α) (s : St α) (value : V3 α) : St α := setCentroid M s value
 
+/-- the answers of a history of queries, in order (each one as the caller sees it when it is given) -/
+def runAnswers (M : Meas α) : List Query → St α → List (Answer α)
+  | [], _ => []
+  | q :: qs, s => answerOf (run M q s) :: runAnswers M qs (run M q s).1
+
+/-! ## what `to_hoomd` does to one coordinate
+
+`self.centroid = (0, 0, 0)` adds `0 − c₀` (the centroid read at the start), `self.centroid = old_centroid`
+adds `c₀ − c₁` (`c₁` = the centroid the getter reports for the centred shape); both `+=` run in the
+scalar arithmetic, in this order. -/
+def roundTrip (c0 c1 x : α) : α := (x + (lit 0 - c0)) + (c0 - c1)
+
+/-- three functions applied down the columns of an `(N,3)` array -/
+def mapRows (f g h : α → α) : Arr α → Arr α
+  | x :: y :: z :: r => f x :: g y :: h z :: mapRows f g h r
+  | l => l
+
+/-! ## constructors
+
+The caller's arrays live in the heap before the call (`np.ndarray` arguments of any dtype, layout or
+view; a list / tuple argument has no identity a shape could keep, so it is the same case with an
+array nobody else holds). Every constructor starts with `np.array(arg, dtype=np.float64)`, which
+ALWAYS allocates:
+
+* curved: `self.centroid = center` → setter → `self._centroid = np.array(value)`;
+* `Polygon`: `vertices = np.array(vertices, dtype=np.float64)`; `(N,2)`: `self._vertices =
+  np.hstack((vertices, zeros))` (another new array), else `self._vertices = vertices` (the copy);
+  `computed_normal` new; `normal` given: `norm_normal = np.array(normal, dtype=np.float64)` (copy),
+  `norm_normal /= np.linalg.norm(normal)` IN PLACE on the copy;
+* `ConvexPolygon` (also the core of `ConvexSpheropolygon`): then `_reorder_verts`:
+  `self._vertices = self._vertices[vert_order, :]` (fancy index: new array);
+* `Polyhedron`: `self._vertices = np.array(vertices, …)`, `_find_equations()` (new);
+* `ConvexPolyhedron` (also the core of `ConvexSpheropolyhedron`): copy, then Qhull's
+  `equations`, `volume`, … and the computed `_centroid` — explicit arguments here.
+
+Validation (`ValueError` for bad geometry) is property C15; this is the accepting path. -/
+
+/-- what is handed to a constructor and what the external routines return during construction -/
+structure CtorIn (α : Type) where
+  /-- the caller's `vertices` array (vertex classes) -/
+  verts : Id
+  /-- the input is `(N, 2)` -/
+  twoCols : Bool
+  /-- the caller's `normal` array, when one is passed (planar classes) -/
+  normal : Option Id
+  /-- the caller's `center` array (curved classes) -/
+  center : Id
+  /-- radius / a, b, c / `_area` -/
+  consts : List α
+  /-- `np.cross(v₂ − v₁, v₀ − v₁)` normalised -/
+  computedNormal : Arr α
+  /-- `_reorder_verts`: the rows in the order `np.lexsort((distances, angles))` gives -/
+  order : Arr α → Arr α
+  /-- `_find_equations()` / Qhull's merged facets -/
+  eqs : Arr α
+  /-- Qhull's simplex equations -/
+  seqs : Arr α
+  /-- `_centroid` as computed at construction -/
+  cen : Arr α
+  /-- `hull.volume` -/
+  volume : α
+
+/-- `np.hstack((vertices, np.zeros((N, 1))))` of an `(N,2)` array -/
+def pad2 : Arr α → Arr α
+  | x :: y :: r => x :: y :: lit 0 :: pad2 r
+  | _ => []
+
+/-- `n /= np.linalg.norm(n)` of a `(3,)` array -/
+def normalise : Arr α → Arr α
+  | [x, y, z] => [x / Scalar.sqrt (x * x + y * y + z * z), y / Scalar.sqrt (x * x + y * y + z * z),
+                  z / Scalar.sqrt (x * x + y * y + z * z)]
+  | l => l
+
+/-- an object with no attribute bound yet: five distinct placeholder arrays (`None`) -/
+def blank (cls : Cls) (h : Heap α) (next : Id) (consts : List α) (args : List Id) : St α :=
+  { heap := Heap.set (Heap.set (Heap.set (Heap.set (Heap.set h next []) (next + 1) []) (next + 2) [])
+      (next + 3) []) (next + 4) [],
+    next := next + 5, cls := cls, fVerts := next, fNormal := next + 1, fCen := next + 2, fEqs := next + 3,
+    fSeqs := next + 4, volume := lit 0, consts := consts, cAreas := none, cFaceCen := none, cEdges := none,
+    handed := [], args := args }
+
+/-- `Polygon.__init__`, the vertices: `np.array(vertices, dtype=np.float64)`, for `(N,2)` input then
+`np.hstack((vertices, np.zeros((N, 1))))` -/
+def ctorVerts (c : CtorIn α) (s : St α) : St α :=
+  let s1 := (s.alloc (s.get c.verts)).setVerts s.next
+  if c.twoCols then (s1.alloc (pad2 (s1.get s1.fVerts))).setVerts s1.next else s1
+
+/-- `Polygon.__init__`, the normal: `computed_normal` (new); when a normal is passed
+`norm_normal = np.array(normal, dtype=np.float64); norm_normal /= np.linalg.norm(normal)` (in place,
+on the copy) -/
+def ctorNormal (c : CtorIn α) (s : St α) : St α :=
+  let s1 := (s.alloc c.computedNormal).setNormal s.next
+  match c.normal with
+  | none => s1
+  | some n =>
+      let s2 := s1.alloc (s1.get n)
+      (s2.write s1.next (normalise (s2.get s1.next))).setNormal s1.next
+
+/-- `Polygon.__init__` after the checks -/
+def constructPlanar (c : CtorIn α) (s : St α) : St α := ctorNormal c (ctorVerts c s)
+
+/-- the constructor of every class, on the accepting path. `h`, `next`: the heap with the caller's
+arrays in it. The caller's arrays are recorded in `args`. -/
+def construct (cls : Cls) (c : CtorIn α) (h : Heap α) (next : Id) : St α :=
+  match cls with
+  | .circle | .ellipse | .sphere | .ellipsoid =>
+      let s := blank cls h next c.consts [c.center]
+      -- `self.centroid = center` → `self._centroid = np.array(value)`
+      (s.alloc (s.get c.center)).setCen s.next
+  | .polygon =>
+      constructPlanar c (blank cls h next c.consts (c.verts :: c.normal.toList))
+  | .convexPolygon | .spheropolygon =>
+      let s := constructPlanar c (blank cls h next c.consts (c.verts :: c.normal.toList))
+      -- `_reorder_verts`: `self._vertices = self._vertices[vert_order, :]`
+      (s.alloc (c.order (s.get s.fVerts))).setVerts s.next
+  | .polyhedron =>
+      let s := blank cls h next c.consts [c.verts]
+      let s1 := (s.alloc (s.get c.verts)).setVerts s.next
+      (s1.alloc c.eqs).setEqs s1.next
+  | .convexPolyhedron | .spheropolyhedron =>
+      let s := blank cls h next c.consts [c.verts]
+      let s1 := (s.alloc (s.get c.verts)).setVerts s.next
+      let s2 := (s1.alloc c.seqs).setSeqs s1.next
+      let s3 := (s2.alloc c.eqs).setEqs s2.next
+      let s4 := (s3.alloc c.cen).setCen s3.next
+      s4.setVolume c.volume
+
+/-- NOT the code: `Polygon.__init__` with `np.asarray` in place of `np.array` for an `(N,3)` float64
+C-contiguous input (no copy is made: the caller's array becomes `_vertices`). Used only to show
+that the copy is what the theorems rest on. -/
+def constructPlanarNoCopy (c : CtorIn α) (s : St α) : St α :=
+  let s1 := s.setVerts c.verts
+  (s1.alloc c.computedNormal).setNormal s1.next
+
 end C16
